@@ -1,6 +1,7 @@
 package slicecache
 
 import (
+	"context"
 	"fmt"
 
 	"github.com/grailbio/bigslice/sliceio"
@@ -13,4 +14,18 @@ func VerifC13FileReader(path string) sliceio.Reader { return newFileReader(path)
 // VerifC13Path exposes the naming scheme of shard files.
 func VerifC13Path(prefix string, shard, numShards int) string {
 	return fmt.Sprintf(pathFormat, prefix, shard, numShards)
+}
+
+// VerifC13Probe forwards to NewFileShardCache (+ RequireAllCached) and reports the
+// resulting view; package internal/slicecache cannot be imported by the harness.
+func VerifC13Probe(ctx context.Context, prefix string, numShards int, requireAll bool) []bool {
+	c := NewFileShardCache(ctx, prefix, numShards)
+	if requireAll {
+		c.RequireAllCached()
+	}
+	out := make([]bool, numShards)
+	for i := range out {
+		out[i] = c.IsCached(i)
+	}
+	return out
 }
